@@ -324,9 +324,19 @@ Definition chunk_ok (n c : nat) : bool := (0 <? c) && (c <=? n).
    datasets are created with chunks=min(n_valid, 20000), or chunks=None when
    n_valid = 0: pieces (or a whole result) without stored values are joined like
    any other. *)
+(* n_rows = final_shape[0] need not be the number of rows of the pieces: the pointer
+   array is created with n_rows + 1 zeros, every piece writes its pointers (without the
+   last) at the running row position - h5py clips the slice to the extent and refuses
+   (TypeError "Can't broadcast") when that drops an element, i.e. when the pieces have
+   more than n_rows + 1 rows in all -, and finally indptr[-1] = n_valid.  With fewer rows
+   than n_rows the gap stays zero (a pointer array that is not monotone); with exactly
+   one row more the last row boundary is overwritten. *)
 Definition amalgamate_csr (pieces : list comp) (n_rows : nat) : res comp :=
   bind (merge_csr pieces) (fun mg =>
-  if length (ptr mg) =? S n_rows then Ok mg else Err EReject).
+  let body := removelast (ptr mg) in
+  if S n_rows <? length body then Err EReject
+  else Ok {| ptr := firstn n_rows (body ++ repeat 0 (n_rows - length body)) ++ [last (ptr mg) 0];
+             idx := idx mg; dat := dat mg |}).
 
 (* amalgamate_dense_to_x *)
 Definition amalgamate_dense (pieces : list dense) : dense := concat pieces.
